@@ -40,6 +40,9 @@ pub struct Tok {
     pub flags: u8,
     pub has_reason_string: bool,
     pub user_props: usize,
+    pub props: Props,
+    pub ka: u16,
+    pub level: u8,
 }
 
 /// Decode a variable byte integer; Ok(Some((value, nbytes))), Ok(None) = need more, Err = malformed
@@ -77,47 +80,90 @@ fn u16at(b: &[u8], i: usize) -> u16 {
     if i + 1 < b.len() { ((b[i] as u16) << 8) | b[i + 1] as u16 } else { 0 }
 }
 
-/// Scan v5 properties in `b` (which starts with the property-length varint); returns
-/// (bytes consumed, alias, has reason string, number of user properties)
-fn scan_props(b: &[u8]) -> (usize, u16, bool, usize) {
-    let Ok(Some((plen, n))) = varint(b) else { return (b.len(), 0, false, 0) };
+#[derive(Debug, Clone, Default)]
+pub struct Props {
+    pub len: usize,
+    pub alias: u16,
+    pub rs: bool,
+    pub up: usize,
+    pub rm: u16,
+    pub mps: u32,
+    pub tam: u16,
+    pub ska: i32,
+    pub mq: i32,
+    pub sei: i64,
+    pub subid: u32,
+}
+
+/// Scan v5 properties in `b` (which starts with the property-length varint).
+fn scan_props(b: &[u8]) -> Props {
+    let mut p = Props { ska: -1, mq: -1, sei: -1, ..Props::default() };
+    let Ok(Some((plen, n))) = varint(b) else {
+        p.len = b.len();
+        return p;
+    };
+    p.len = n + plen;
     let end = (n + plen).min(b.len());
     let mut i = n;
-    let (mut alias, mut rs, mut up) = (0u16, false, 0usize);
+    let u32at = |i: usize| -> u32 { (u32::from(u16at(b, i)) << 16) | u32::from(u16at(b, i + 2)) };
     while i < end {
         let id = b[i];
         i += 1;
         match id {
-            0x01 | 0x17 | 0x19 | 0x24 | 0x25 | 0x28 | 0x29 | 0x2a => i += 1,
-            0x13 | 0x21 | 0x22 => i += 2,
-            0x23 => {
-                alias = u16at(b, i);
+            0x24 => {
+                p.mq = i32::from(*b.get(i).unwrap_or(&0));
+                i += 1;
+            }
+            0x01 | 0x17 | 0x19 | 0x25 | 0x28 | 0x29 | 0x2a => i += 1,
+            0x13 => {
+                p.ska = i32::from(u16at(b, i));
                 i += 2;
             }
-            0x02 | 0x11 | 0x18 | 0x27 => i += 4,
+            0x21 => {
+                p.rm = u16at(b, i);
+                i += 2;
+            }
+            0x22 => {
+                p.tam = u16at(b, i);
+                i += 2;
+            }
+            0x23 => {
+                p.alias = u16at(b, i);
+                i += 2;
+            }
+            0x11 => {
+                p.sei = i64::from(u32at(i));
+                i += 4;
+            }
+            0x27 => {
+                p.mps = u32at(i);
+                i += 4;
+            }
+            0x02 | 0x18 => i += 4,
             0x0b => {
-                if let Ok(Some((_, k))) = varint(&b[i.min(b.len())..]) {
+                if let Ok(Some((v, k))) = varint(&b[i.min(b.len())..]) {
+                    p.subid = v as u32;
                     i += k;
                 } else {
                     break;
                 }
             }
             0x1f => {
-                rs = true;
+                p.rs = true;
                 i += 2 + u16at(b, i) as usize;
             }
             0x03 | 0x08 | 0x09 | 0x12 | 0x15 | 0x16 | 0x1a | 0x1c => {
                 i += 2 + u16at(b, i) as usize;
             }
             0x26 => {
-                up += 1;
+                p.up += 1;
                 i += 2 + u16at(b, i) as usize;
                 i += 2 + u16at(b, i) as usize;
             }
             _ => break,
         }
     }
-    (n + plen, alias, rs, up)
+    p
 }
 
 /// Stateful tokeniser over a byte stream.
@@ -183,10 +229,11 @@ impl Tokenizer {
                     i += 2;
                 }
                 if v5 && i <= body.len() {
-                    let (n, alias, _, up) = scan_props(&body[i..]);
-                    t.alias = alias;
-                    t.user_props = up;
-                    i += n;
+                    let p = scan_props(&body[i..]);
+                    t.alias = p.alias;
+                    t.user_props = p.up;
+                    i += p.len;
+                    t.props = p;
                 }
                 t.plen = body.len().saturating_sub(i);
             }
@@ -195,9 +242,9 @@ impl Tokenizer {
                 if v5 && body.len() > 2 {
                     t.reason = body[2];
                     if body.len() > 3 {
-                        let (_, _, rs, up) = scan_props(&body[3..]);
-                        t.has_reason_string = rs;
-                        t.user_props = up;
+                        let p = scan_props(&body[3..]);
+                        t.has_reason_string = p.rs;
+                        t.user_props = p.up;
                     }
                 }
             }
@@ -208,14 +255,26 @@ impl Tokenizer {
                 t.id = u16at(body, 0);
                 let mut i = 2;
                 if v5 && i <= body.len() {
-                    let (n, _, rs, up) = scan_props(&body[i..]);
-                    t.has_reason_string = rs;
-                    t.user_props = up;
-                    i += n;
+                    let p = scan_props(&body[i..]);
+                    t.has_reason_string = p.rs;
+                    t.user_props = p.up;
+                    i += p.len;
                 }
                 t.plen = body.len().saturating_sub(i);
                 if i < body.len() {
                     t.reason = body[i];
+                }
+            }
+            1 => {
+                let nl = u16at(body, 0) as usize;
+                let i = 2 + nl;
+                if i + 4 <= body.len() {
+                    t.level = body[i];
+                    t.flags = body[i + 1];
+                    t.ka = u16at(body, i + 2);
+                    if t.level == 5 {
+                        t.props = scan_props(&body[i + 4..]);
+                    }
                 }
             }
             2 => {
@@ -224,18 +283,20 @@ impl Tokenizer {
                     t.reason = body[1];
                 }
                 if v5 && body.len() > 2 {
-                    let (_, _, rs, up) = scan_props(&body[2..]);
-                    t.has_reason_string = rs;
-                    t.user_props = up;
+                    let p = scan_props(&body[2..]);
+                    t.has_reason_string = p.rs;
+                    t.user_props = p.up;
+                    t.props = p;
                 }
             }
             14 | 15 => {
                 if v5 && !body.is_empty() {
                     t.reason = body[0];
                     if body.len() > 1 {
-                        let (_, _, rs, up) = scan_props(&body[1..]);
-                        t.has_reason_string = rs;
-                        t.user_props = up;
+                        let p = scan_props(&body[1..]);
+                        t.has_reason_string = p.rs;
+                        t.user_props = p.up;
+                        t.props = p;
                     }
                 }
             }
